@@ -18,7 +18,6 @@ Inductive case :=
 Definition show_pc (c : pc) : str :=
   match c with
   | Idle => L "I"
-  | Created i => L "C" ++ dec i
   | WantRead => L "R"
   | WantProbe i q => L "P" ++ dec i ++ L "." ++ dec q
   | WantRemove None => L "X-"
@@ -48,13 +47,13 @@ Definition show_state (n : nat) (s : state) : str :=
 
 Definition show_event (e : event) : str :=
   match e with
-  | TryCreate p => L "c" ++ dec p | WritePid p => L "w" ++ dec p | Read p => L "r" ++ dec p
+  | TryCreate p => L "c" ++ dec p | Read p => L "r" ++ dec p
   | Probe p => L "p" ++ dec p | Remove p => L "x" ++ dec p | Wake p => L "k" ++ dec p
   | Unlock p => L "u" ++ dec p | Crash p => L "!" ++ dec p | Cancel p => L "a" ++ dec p
   end.
 
 Definition guard_flag (s : state) (e : event) : str :=
-  if read_before_write s e then L "b" else if remove_of_unexamined_inode s e then L "u" else L "-".
+  if remove_of_unexamined_inode s e then L "u" else L "-".
 
 Definition disabled (n : nat) (what : str) (s : state) : str := what ++ L "/0/" ++ show_state n s ++ L "/-".
 
